@@ -25,6 +25,9 @@ Obligations that can be reported (witness keys in brackets)
                                                           all-undefined 256x256 tile)
   rt/PyramidIO.read_image/read-back                      (identical pixels and mode)
   rt/PyramidIO.write_image/raises, rt/PyramidIO.read_image/raises
+Floating-point cases may carry ``inf`` / ``old_inf`` (fill, update, clear) or ``step_inf`` (persist; one entry per step):
+'all' | 'some' | 'channel' = which of the DEFINED pixels of the source / the old buffer content / the tile written are
++inf or -inf (rt/c15_modes.random_array).  Infinities are defined values: only NaN is undefined for floating-point data.
 Indexers in a witness are ["slice", start, stop, step] or ["index", [..]].
 ``all-zero-integer-tile-not-stored`` is the integer instance of "a tile whose pixels are all
 undefined is never stored" (the statement defines zero as undefined for integer data); it
@@ -114,7 +117,8 @@ def check_buffer_case(spec):
     H, W = spec["img_shape"]
     BH, BW = spec["buf_shape"]
     nprng = np.random.default_rng(spec["seed"])
-    src = M.random_array(mode, H, W, nprng, kind=spec.get("content", "mixed"), negative=bool(spec.get("negative")), dirty=bool(spec.get("dirty")))
+    src = M.random_array(mode, H, W, nprng, kind=spec.get("content", "mixed"), negative=bool(spec.get("negative")), dirty=bool(spec.get("dirty")),
+                         inf=spec.get("inf"))
     points = spec["by"][0] == "index" and spec["bx"][0] == "index"
     srows, scols = addressed(H, spec["iy"]), addressed(W, spec["ix"])
     brows, bcols = addressed(BH, spec["by"]), addressed(BW, spec["bx"])
@@ -178,7 +182,7 @@ def check_buffer_case(spec):
 
     if spec["kind"] == "fill":
         # the buffer starts with arbitrary defined garbage: fill must mark the rest undefined
-        garbage = M.random_array(bmode, BH, BW, nprng, kind="full", negative=bool(spec.get("negative")))
+        garbage = M.random_array(bmode, BH, BW, nprng, kind="full", negative=bool(spec.get("negative")), inf=spec.get("old_inf"))
         buf._as_writeable_array()[...] = garbage
         try:
             img.fill_into_maskable_buffer(buf, *idx)
@@ -196,7 +200,8 @@ def check_buffer_case(spec):
             (br, bc, sr, sc), (r, c) = first(~ok)
             return [(O_F_CELLS, "buffer cell (%d,%d) = %r, source pixel (%d,%d) = %r" % (br, bc, _px(got, br, bc), sr, sc, _px(V, r, c)))]
     else:
-        old = M.random_array(bmode, BH, BW, nprng, kind=spec.get("old_content", "mixed"), negative=bool(spec.get("negative")), dirty=bool(spec.get("dirty")))
+        old = M.random_array(bmode, BH, BW, nprng, kind=spec.get("old_content", "mixed"), negative=bool(spec.get("negative")), dirty=bool(spec.get("dirty")),
+                             inf=spec.get("old_inf"))
         if "old_mask" in spec:
             for k in range(ncells):
                 br, bc, sr, sc = cell(k)
@@ -250,7 +255,7 @@ def check_clear(spec):
     nprng = np.random.default_rng(spec["seed"])
     try:
         buf = ImageMode[mode].make_maskable_buffer(BH, BW)
-        buf._as_writeable_array()[...] = M.random_array(bmode, BH, BW, nprng, kind="full")
+        buf._as_writeable_array()[...] = M.random_array(bmode, BH, BW, nprng, kind="full", inf=spec.get("old_inf"))
         buf.clear()
         got = buf.asarray()
     except Exception as e:
@@ -315,8 +320,10 @@ def check_persist(spec, workdir):
             if bad:
                 return [bad + ({"step": -1},)]
 
+        step_inf = spec.get("step_inf") or [None] * len(spec["steps"])
         for k, content in enumerate(spec["steps"]):
-            arr = M.random_array(mode, H, W, nprng, kind=content, negative=bool(spec.get("negative")), dirty=bool(spec.get("dirty")))
+            arr = M.random_array(mode, H, W, nprng, kind=content, negative=bool(spec.get("negative")), dirty=bool(spec.get("dirty")),
+                                 inf=step_inf[k])
             all_undef = bool(np.all(M.undef_mask(mode, arr)))
             tag = "step %d (%s)" % (k, content)
             try:
@@ -433,6 +440,21 @@ def run(ctx):
                                   "iy": _sl(1, 3, False), "ix": _sl(0, 2, False), "by": _sl(1, 3, ry), "bx": _sl(2, 4, False),
                                   "content": "full", "old_content": "mixed", "src_mask": sm, "old_mask": om, "seed": seed()})
     ctx.bound("update: 2x2 rectangle, all 16 source masks x all 16 old-cell masks x 7 maskable modes x 2 row orders")
+    # 2b. the same family with infinite values (floating-point modes): +inf / -inf are defined values -- the statement
+    # names NaN as the undefined floating-point value -- so a source pixel holding an infinity (in every channel or in
+    # one channel only) replaces the old value like any other defined pixel, and an infinite old value is replaced / kept
+    # like any other defined old value
+    for mode in M.FLOAT_MODES:
+        for sm in range(16):
+            for om in range(16):
+                for inf, old_inf in (("all", None), ("channel", None), ("all", "all"), (None, "channel")):
+                    specs.append({"kind": "update", "mode": mode, "img_shape": [3, 3], "buf_shape": [4, 4],
+                                  "iy": _sl(1, 3, False), "ix": _sl(0, 2, False), "by": _sl(1, 3, (sm + om) % 2 == 1), "bx": _sl(2, 4, False),
+                                  "content": "full", "old_content": "mixed", "src_mask": sm, "old_mask": om, "seed": seed(),
+                                  "inf": inf, "old_inf": old_inf})
+    ctx.bound("update with infinities (F32, F64, F16x3): 2x2 rectangle, all 16 source masks x all 16 old-cell masks x {every defined "
+              "source pixel +-inf in all channels / in one channel (F16x3), old cells finite or +-inf; finite source over old cells "
+              "with one infinite channel}")
     # 3. random large cases, with the indexers used in the repository
     nlarge = 1500 if ctx.thorough else 60
     for mode in M.MODES:
@@ -497,6 +519,19 @@ def run(ctx):
                     if mode == "RGBA" and rng.random() < 0.4:
                         s["dirty"] = True
                     specs.append(s)
+    # tiles holding infinities are defined tiles: stored, read back exactly, replaced / removed like any other
+    for mode in M.FLOAT_MODES:
+        for fmt in M.LOSSLESS[mode]:
+            for prior in ("absent", "stale-defined", "stale-foreign"):
+                for steps, infs in ((["full"], ["all"]), (["single"], ["all"]), (["mixed"], ["all"]), (["single"], ["channel"]),
+                                    (["full", "allundef", "single"], ["some", None, "all"]), (["mixed", "sparse"], ["channel", "all"])):
+                    specs.append({"kind": "persist", "mode": mode, "format": fmt, "prior": prior, "steps": steps, "step_inf": infs,
+                                  "scheme": rng.choice(["L/Y/YX", "L/Y/YX", "LXY"]), "shape": rng.choice([[256, 256], [256, 256], [3, 5]]),
+                                  "pos": rng.choice([[0, 0, 0], [1, 1, 0], [2, 1, 3], [5, 17, 30]]),
+                                  "explicit_format": rng.random() < 0.2, "seed": seed()})
+    ctx.bound("persistence of float tiles with infinities: F32, F64 (npy, fits), F16x3 (npy) x prior file state x 6 histories: a whole tile "
+              "of +-inf, a single infinite pixel (all channels / one channel) in an otherwise undefined tile, infinities and NaN only, "
+              "then all-undefined, then defined again")
     ctx.bound("persistence: every mode x lossless format able to hold it (png: RGB RGBA; npy: all; fits: U8 I16 I32 F32 F64) x prior file state "
               "{absent, stale defined tile, stale foreign bytes} x %d histories of 1..3 writes (contents: %s); both path schemes" % (nhist, sorted(set(contents))))
     ctx.assume("numpy .npy, PIL PNG and astropy.io.fits codecs are lossless for the modes they are used with")
@@ -507,6 +542,33 @@ def run(ctx):
     for sp in specs:
         if sp["mode"] in ("I16", "I32") and rng.random() < 0.5:
             sp["negative"] = True
+    # infinities in floating-point data (drawn from a generator of their own: the cases above are the same with and without
+    # this block): about half of the float fill/update/clear/persist cases get +-inf among their defined values
+    import random as _random
+    rng2 = _random.Random(ctx.seed * 7919 + 15)
+    kinds = [None] + list(M.INF_KINDS)
+    n_inf = 0
+    for sp in specs:
+        if sp["mode"] not in M.FLOAT_MODES or "inf" in sp or "step_inf" in sp:
+            continue
+        if sp["kind"] == "persist":
+            if rng2.random() < 0.4:
+                sp["step_inf"] = [rng2.choice(kinds) for _ in sp["steps"]]
+                n_inf += 1
+        elif sp["kind"] == "clear":
+            if rng2.random() < 0.5:
+                sp["old_inf"] = rng2.choice(M.INF_KINDS)      # content of the buffer before clear()
+                n_inf += 1
+        else:
+            src_inf, old_inf = rng2.random() < 0.4, rng2.random() < 0.3
+            if src_inf:
+                sp["inf"] = rng2.choice(M.INF_KINDS)          # source image
+            if old_inf:
+                sp["old_inf"] = rng2.choice(M.INF_KINDS)      # buffer content before fill / update
+            n_inf += 1 if (src_inf or old_inf) else 0
+    ctx.bound("infinities: %d of the floating-point fill / update / clear / persistence cases above carry +inf / -inf among the defined "
+              "values of the source, of the old buffer content or of the tile written (every defined pixel, a fifth of them, or one "
+              "channel per pixel for F16x3); undefined stays NaN only" % n_inf)
     rng.shuffle(specs)
     per = 1500 if ctx.thorough else 500
     batches = M.chunks(specs, per)
